@@ -840,7 +840,7 @@ class TypesCodeGenerator:
             class_name = _get_class_name(request)
             if not class_name.endswith("Request"):
                 class_name += "Request"
-            class_name_part = class_name.replace("Request", "")
+            class_name_part = class_name[: -len("Request")]
 
             doc = _get_indented_documentation(request.documentation, indent)
 
@@ -1033,7 +1033,7 @@ class TypesCodeGenerator:
             class_name = _get_class_name(request)
             if not class_name.endswith("Request"):
                 class_name += "Request"
-            class_name_part = class_name.replace("Request", "")
+            class_name_part = class_name[: -len("Request")]
             request_class = f"{class_name_part}Request"
             response_class = f"{class_name_part}Response"
 
